@@ -21,6 +21,14 @@ CLAIMED = {
   note="Trusts: ThreadSanitizer's happens-before analysis over executed schedules; yield-point granularity; harness node types stand in for user nodes; porcupine Unknown is counted, never reported.",
   technique="deterministic simulation: seeded goroutine scheduler + race detector + linearizability check of the recorded history",
  ),
+ "C10": dict(
+  engine="detsched (seeded scheduler over real goroutines) + race detector; sequential variant as reference",
+  category="exploration",
+  text="Each of the seven Scan/Modify *ParallelWithPoolSize functions, AddFieldParallel, AddFieldParallel2 and MarchParallel is executed under a seeded scheduler that decides every interleaving of the library's worker goroutines (hooks after every go statement, around every channel operation and the chunk mutex, inside user callbacks and field functions), with pool sizes and worker counts as per-run knobs and element counts placed around multiples of the pool size; results are compared with the sequential counterpart (visit multiset and handed-over values, bit-identical Modify results, canvas contents cell by cell, marched triangle multisets), under the race detector with scheduler hand-offs invisible to it; deadlock, no progress, workers outliving the call, panics on one side only and runtime crashes are violations. Sampled, not exhaustive.",
+  design_ref="DESIGN.md 3.2",
+  note="Trusts: ThreadSanitizer over executed schedules; yield-point granularity; user callbacks race-free by construction; block-to-worker assignment inside the library follows unseamed Go map order.",
+  technique="deterministic simulation: seeded goroutine scheduler + race detector, parallel variant vs sequential reference",
+ ),
  "C11": dict(
   engine="choice-stream history simulation vs. from-scratch evaluator; seeded map-order seam",
   category="exploration",
